@@ -238,7 +238,8 @@ class Effects:
         if kinds[0] == "scalar":
             return "scalar", "/".join(kinds)
         # a container parameter (tokens: list[Token]) is whatever the callers pass for it
-        if isinstance(root, ast.Name) and root.id in self._params(f) and _depth < 4 and "container" in kinds:
+        if isinstance(root, ast.Name) and root.id in self._params(f) and _depth < 4 and (
+                "container" in kinds or any(k.startswith("class:") for k in kinds)):
             cats = []
             for cs in self.cg.callers.get(f, []):
                 arg = self.arg_for_param(cs, f, root.id)
